@@ -335,7 +335,7 @@ Qed.
 
 Lemma wstep_prims w op : prims w (fst (wstep h maxdig w op)).
 Proof.
-  destruct op as [e t|pi i data|pi i wr|pi i pid e1|pi i e1|pi i e1|pi i last wr e1 e2|pi wss|pi wss]; unfold wstep.
+  destruct op as [e t|pi i data|pi i wr|pi i pid e1|pi i e1|pi i e1|pi i last wr e1 e2|pi i e1 e2|pi wss|pi wss]; unfold wstep.
   - apply emit_prims.
   - destruct (get_proc w pi i) as [[p q]|]; [|constructor].
     destruct (l_closed (p_l q)); [constructor|].
@@ -367,19 +367,12 @@ Proof.
     simpl.
       set (w2 := set_proc w1 pi i q2).
       assert (P2 : prims w w2) by (eapply prims_trans; [exact P01 | apply set_proc_prims]).
-      assert (P3 : prims w2 (fst (if p_killing q then emit w2 e1 T_ProcessStateStoppedEvent
-                                  else if pstate_eqb (p_state q) PS_STARTING
-                                       then seq (emit w2 e1 T_ProcessStateRunningEvent)
-                                                (fun w' => emit w' e2 T_ProcessStateExitedEvent)
-                                       else emit w2 e2 T_ProcessStateExitedEvent))).
-      { destruct (p_killing q); [apply emit_prims|].
+      assert (P3 : prims w2 (fst (finish_emits w2 (p_state q) (p_killing q) e1 e2))).
+      { unfold finish_emits. destruct (pstate_eqb (p_state q) PS_UNKNOWN); [constructor|].
+        destruct (p_killing q); [apply emit_prims|].
         destruct (pstate_eqb (p_state q) PS_STARTING); [|apply emit_prims].
         apply seq_prims; [apply emit_prims | intros; apply emit_prims]. }
-      destruct (if p_killing q then emit w2 e1 T_ProcessStateStoppedEvent
-                else if pstate_eqb (p_state q) PS_STARTING
-                     then seq (emit w2 e1 T_ProcessStateRunningEvent)
-                              (fun w' => emit w' e2 T_ProcessStateExitedEvent)
-                     else emit w2 e2 T_ProcessStateExitedEvent) as [w3 f3]. simpl in P3.
+      destruct (finish_emits w2 (p_state q) (p_killing q) e1 e2) as [w3 f3]. simpl in P3.
       match goal with |- context [set_proc w3 pi i ?q3] => set (w4 := set_proc w3 pi i q3) end.
       assert (P4 : prims w w4).
       { eapply prims_trans; [exact P2|]. eapply prims_trans; [exact P3 | apply set_proc_prims]. }
@@ -387,6 +380,10 @@ Proof.
       pose proof (notify_prims w4 (NRejected pi i (Some e))) as P5.
       destruct (notify w4 (NRejected pi i (Some e))) as [w5 f5]. simpl in *.
       eapply prims_trans; eassumption.
+  - destruct (get_proc w pi i) as [[p q]|]; [|constructor].
+    destruct (proc_step h maxdig i q PStopFail) as [q' o].
+    destruct o as [|x o]; [|destruct x; try constructor];
+      (apply seq_prims; [eapply prims_trans; [apply set_proc_prims | apply emit_prims] | intros; apply emit_prims]).
   - apply dispatch_prims.
   - destruct (nth_error (w_pools w) pi) as [p|]; [|constructor].
     destruct (dispatch_capable p); [apply dispatch_prims | constructor].
@@ -1659,7 +1656,7 @@ Proof.
   intros G.
   assert (Inapp : raised [EInapplicable] = false -> good w /\ forall pi e, balanced pi e w [EInapplicable] w).
   { intros _. split; [exact G | intros; apply balanced_inapp]. }
-  destruct op as [f t|pi0 i data|pi0 i wr|pi0 i pid e1|pi0 i e1|pi0 i e1|pi0 i last wr e1 e2|pi0 wss|pi0 wss]; unfold wstep.
+  destruct op as [f t|pi0 i data|pi0 i wr|pi0 i pid e1|pi0 i e1|pi0 i e1|pi0 i last wr e1 e2|pi0 i e1 e2|pi0 wss|pi0 wss]; unfold wstep.
   - (* WEmit *) apply emit_balance. exact G.
   - (* WFeed *)
     destruct (get_proc w pi0 i) as [[p q]|] eqn:GP; [|exact Inapp].
@@ -1744,11 +1741,8 @@ Proof.
     destruct (write_event (set_l q l1) wr) as [q2 r]. simpl in L2, P2.
     assert (Rest : True ->
       let w2 := set_proc w1 pi0 i q2 in
-      let '(w3, f3) := if p_killing q then emit w2 e1 T_ProcessStateStoppedEvent
-                       else if pstate_eqb (p_state q) PS_STARTING
-                            then seq (emit w2 e1 T_ProcessStateRunningEvent) (fun w' => emit w' e2 T_ProcessStateExitedEvent)
-                            else emit w2 e2 T_ProcessStateExitedEvent in
-      let q3 := mkP (if p_killing q then PS_STOPPED else PS_EXITED) 0 false
+      let '(w3, f3) := finish_emits w2 (p_state q) (p_killing q) e1 e2 in
+      let q3 := mkP (finish_state (p_state q) (p_killing q)) 0 false
                     (mkL (l_state (p_l q2)) [] None [] None true) false [] true
                     (p_accepted q2) (p_broken q2) (p_envs q2) in
       let w4 := set_proc w3 pi0 i q3 in
@@ -1775,10 +1769,7 @@ Proof.
       set (w2 := set_proc w1 pi0 i q2) in *.
       (* the state-change notifications *)
       assert (Emits : forall (ww : world), good ww -> (exists pp, get_proc ww pi0 i = Some (pp, q2)) ->
-        let '(w3, f3) := if p_killing q then emit ww e1 T_ProcessStateStoppedEvent
-                         else if pstate_eqb (p_state q) PS_STARTING
-                              then seq (emit ww e1 T_ProcessStateRunningEvent) (fun w' => emit w' e2 T_ProcessStateExitedEvent)
-                              else emit ww e2 T_ProcessStateExitedEvent in
+        let '(w3, f3) := finish_emits ww (p_state q) (p_killing q) e1 e2 in
         raised f3 = false -> good w3 /\ (forall pi e, balanced pi e ww f3 w3) /\ exists p3, get_proc w3 pi0 i = Some (p3, q2)).
       { intros ww Gw [pp GPw].
         assert (One : forall ee tt, let '(w3, f3) := emit ww ee tt in
@@ -1786,6 +1777,8 @@ Proof.
         { intros ee tt. pose proof (emit_balance ww ee tt Gw) as EB.
           destruct (emit_get_proc ww ee tt pi0 i pp q2 GPw) as [p3 GP3].
           destruct (emit ww ee tt) as [w3 f3]. simpl in GP3. intros R. destruct (EB R). eauto. }
+        unfold finish_emits. destruct (pstate_eqb (p_state q) PS_UNKNOWN).
+        { intros _. split; [exact Gw|]. split; [intros; apply balanced_refl | eauto]. }
         destruct (p_killing q); [apply One|].
         destruct (pstate_eqb (p_state q) PS_STARTING); [|apply One].
         unfold seq. specialize (One e1 T_ProcessStateRunningEvent).
@@ -1798,11 +1791,8 @@ Proof.
         split; [exact Gb|]. split; [intros pi e; eapply balanced_trans; [apply Ba | apply Bb]|].
         eapply EG2. exact GPa. }
       specialize (Emits w2).
-      destruct (if p_killing q then emit w2 e1 T_ProcessStateStoppedEvent
-                else if pstate_eqb (p_state q) PS_STARTING
-                     then seq (emit w2 e1 T_ProcessStateRunningEvent) (fun w' => emit w' e2 T_ProcessStateExitedEvent)
-                     else emit w2 e2 T_ProcessStateExitedEvent) as [w3 f3].
-      set (q3 := mkP (if p_killing q then PS_STOPPED else PS_EXITED) 0 false
+      destruct (finish_emits w2 (p_state q) (p_killing q) e1 e2) as [w3 f3].
+      set (q3 := mkP (finish_state (p_state q) (p_killing q)) 0 false
                      (mkL (l_state (p_l q2)) [] None [] None true) false [] true
                      (p_accepted q2) (p_broken q2) (p_envs q2)).
       (* common tail: the listener record is replaced by the dead one *)
@@ -1843,20 +1833,35 @@ Proof.
         unfold balanced. lia. }
     destruct r.
     + pose proof (Rest I) as RR. cbv zeta in RR.
-      match goal with |- context [if p_killing q then ?a else ?b] =>
-        destruct (if p_killing q then a else b) as [w3 f3] end.
+      match goal with |- context [finish_emits ?a ?b ?c ?d ?e] =>
+        destruct (finish_emits a b c d e) as [w3 f3] end.
       destruct (l_event (p_l q2)) as [ev|];
         [match goal with |- context [notify ?ww ?nn] => destruct (notify ww nn) as [w5 f5] end; exact RR | exact RR].
     + pose proof (Rest I) as RR. cbv zeta in RR.
-      match goal with |- context [if p_killing q then ?a else ?b] =>
-        destruct (if p_killing q then a else b) as [w3 f3] end.
+      match goal with |- context [finish_emits ?a ?b ?c ?d ?e] =>
+        destruct (finish_emits a b c d e) as [w3 f3] end.
       destruct (l_event (p_l q2)) as [ev|];
         [match goal with |- context [notify ?ww ?nn] => destruct (notify ww nn) as [w5 f5] end; exact RR | exact RR].
     + pose proof (Rest I) as RR. cbv zeta in RR.
-      match goal with |- context [if p_killing q then ?a else ?b] =>
-        destruct (if p_killing q then a else b) as [w3 f3] end.
+      match goal with |- context [finish_emits ?a ?b ?c ?d ?e] =>
+        destruct (finish_emits a b c d e) as [w3 f3] end.
       destruct (l_event (p_l q2)) as [ev|];
         [match goal with |- context [notify ?ww ?nn] => destruct (notify ww nn) as [w5 f5] end; exact RR | exact RR].
+  - (* WStopFail *)
+    destruct (get_proc w pi0 i) as [[p q]|] eqn:GP; [|exact Inapp].
+    pose proof (get_proc_pinv w pi0 i p q G GP) as Iq.
+    pose proof (proc_step_inv h maxdig i q PStopFail Iq) as PI. unfold Proc.proc_step in *.
+    destruct (negb (p_pid q =? 0) && match p_state q with PS_RUNNING | PS_STARTING => true | _ => false end); [|exact Inapp].
+    destruct PI as [Iq' _].
+    destruct (same_slot_step w pi0 i p q _ G GP Iq' eq_refl) as [G1 H1].
+    unfold seq.
+    match goal with |- context [emit ?ww ?ee ?tt] => pose proof (emit_balance ww ee tt G1) as EB; destruct (emit ww ee tt) as [w2 o2] end.
+    pose proof (fun G2 => emit_balance w2 e2 T_ProcessStateUnknownEvent G2) as EB2.
+    destruct (emit w2 e2 T_ProcessStateUnknownEvent) as [w3 o3].
+    rewrite raised_app. intros R. apply orb_false_iff in R. destruct R as [R2 R3].
+    destruct (EB R2) as [G2 B2]. destruct (EB2 G2 R3) as [G3 B3]. split; [exact G3|].
+    intros pi e. specialize (B2 pi e). specialize (B3 pi e). unfold balanced in *.
+    unfold n_offered, n_acked, n_discard in *. rewrite !n_eff_app. rewrite H1 in B2. lia.
   - (* WDispatch *)
     unfold dispatch. destruct (nth_error (w_pools w) pi0) as [p|]; [|exact Inapp].
     apply dispatch_loop_balance. exact G.
